@@ -176,17 +176,7 @@ fn dump_pair(conn: i64, ops: &mut Vec<Vec<Tok>>, used: &[Vec<u8>], db0: bool) {
 }
 
 fn gen_direct(r: &mut Rng, g3: &mut c03::Gen) -> Vec<Vec<u8>> {
-    loop {
-        let c = if r.chance(1, 2) { c01::gen_cmd(r) } else { g3.r = r.fork(); g3.cmd() };
-        // HSET/HMSET naming a field twice: Model/Lists.v e_hset still answers the number of pairs on a fresh
-        // key (the implementation was repaired in 61742d6); left to C03
-        let name = c[0].to_ascii_uppercase();
-        if (name == b"HSET" || name == b"HMSET") && c.len() >= 4 {
-            let fields: Vec<&Vec<u8>> = c[2..].iter().step_by(2).collect();
-            if (0..fields.len()).any(|i| (0..i).any(|j| fields[i] == fields[j])) { continue; }
-        }
-        return c;
-    }
+    if r.chance(1, 2) { c01::gen_cmd(r) } else { g3.r = r.fork(); g3.cmd() }
 }
 
 fn twin_case(r: &mut Rng, id: usize) -> Case {
